@@ -14,6 +14,7 @@ import VerdeModel.Model.Kernels
 import VerdeModel.Model.Neighbors
 import VerdeModel.Model.Chain
 import VerdeModel.Model.Surfer
+import VerdeModel.Model.Hull
 namespace Verde
 open Val
 
@@ -416,9 +417,19 @@ def opsSurfer (op : String) (a : List Val) : Option Val :=
       pure (toVal (r.map fun g => (g.shape, g.northing, g.easting, g.values, g.gridId), tr))
   | _ => none
 
+def opsHull (op : String) (a : List Val) : Option Val :=
+  match op with
+  | "hull_mask" => do
+      pure (toVal (convexHullMask (← argAt (List (Rat × Rat)) a 0) (← argAt (List (Rat × Rat)) a 1)))
+  | "project_grid_lines" => do
+      let r := projectGridLines (← argAt (List Rat) a 0) (← argAt (List Rat) a 1) (← argAt (Nat × Nat) a 2)
+        (← argAt (Option (List Rat)) a 3) (← argAt (Option (List Rat)) a 4)
+      pure (toVal (r.map fun (p : List Rat × List Rat) => [p.1, p.2]))
+  | _ => none
+
 def dispatchers : List (String → List Val → Option Val) :=
   [opsCoords, opsBlocks, opsWindows, opsGrid, opsCV, opsScore, opsGridder, opsLinAlg, opsKernels, opsNeighbors, opsChain,
-   opsSurfer]
+   opsSurfer, opsHull]
 
 def runLine (line : String) : String :=
   match Val.parseLine line with
